@@ -3,6 +3,7 @@
 mod proj;
 mod parse_ev;
 mod gen;
+mod rt_ev;
 
 use std::collections::HashMap;
 
@@ -50,6 +51,7 @@ fn real_main() {
         "gen-corpus" => gen::gen_corpus(&args),
         "gen-mutants" => gen::gen_mutants(&args),
         "parse-events" => parse_ev::parse_events(&args),
+        "roundtrip-events" => rt_ev::roundtrip_events(&args),
         _ => {
             eprintln!("unknown command {cmd:?}");
             std::process::exit(2);
